@@ -75,7 +75,8 @@ theorem registry_invariant (C : Crypto) (now : Nat) (args : List Bytes) (st0 : S
     | ok v =>
       obtain ⟨st', rs, ev⟩ := v
       rcases call_cases C st c.ctx c.func c.args st' rs ev h with
-        ⟨m, p, _, _, ha⟩ | ⟨s, p, _, _, hr⟩ | ⟨chain, id, src, ph, b, _, _, _, hv, _⟩ | ⟨op, _, _, _, ht⟩ | rfl
+        ⟨m, p, _, _, ha⟩ | ⟨s, p, _, _, hr⟩ | ⟨chain, id, src, ph, b, _, _, _, hv, _⟩ | ⟨op, _, _, _, ht⟩ |
+        ⟨_, _, op, _, ss, _, _, _, _, _, hu⟩ | rfl
       · obtain ⟨proof, msgs, b, _, _, _, _, he⟩ := approveMessages_spec C st st' m p ev ha
         have hf := approveAll_frame C st msgs []
         rw [← he] at hf
@@ -95,6 +96,10 @@ theorem registry_invariant (C : Crypto) (now : Nat) (args : List Bytes) (st0 : S
             · cases ht
             · cases ht; exact ⟨hinv.fwd, hinv.bwd⟩
           · cases ht
+      · -- an upgrade by the owner: the operator field is not part of the registry, and every set it
+        -- registers goes through the same raw rotation
+        exact upgrade_induct C c.ctx.now RegInv (fun s o h => ⟨h.fwd, h.bwd⟩)
+          (fun s s' ws e h hr => rotateSignersRaw_regInv C s s' _ ws _ e h hr) st op ss st' ev hinv hu
       · exact hinv
   have hinit' : RegInv st0 := init_regInv C now args st0 evs hinit
   have all : ∀ (cs : List Call) (st : State), RegInv st → RegInv (run C st cs) := by
